@@ -153,7 +153,9 @@ func (w *Servers) Crash(id uint64) {
 }
 
 // ArmCrash makes node id crash at its count-th durable write from now, before or after it.
-func (w *Servers) ArmCrash(id uint64, count int, after bool) { w.crashArmed[id] = crashSpec{count, after} }
+func (w *Servers) ArmCrash(id uint64, count int, after bool) {
+	w.crashArmed[id] = crashSpec{count, after}
+}
 
 // Disarm removes every pending crash order.
 func (w *Servers) Disarm() { w.crashArmed = map[uint64]crashSpec{} }
